@@ -750,7 +750,7 @@ func (p *parser) typeName() (string, error) {
 		if t.kind == "id" {
 			sb.WriteString(t.text)
 			p.next()
-			if p.isOp(".") || p.isOp("]") {
+			if p.isOp(".") || p.isOp("]") || ((t.text == "set" || t.text == "seq" || t.text == "map") && p.isOp("[")) {
 				continue
 			}
 			// map[K]V: after ']' comes V
